@@ -308,8 +308,12 @@ extern GetExprBridge
   props C04 C20 C05
   option pure
 
-extern (*ExprBridge).EvaluateExpression
-  props C04 C20 C05
+func (*ExprBridge).EvaluateExpression
+  props C04 C20 C05 C06
+  option assumed_frame
+  count evals := Eval
+  observe runErr := Run#1
+  atreturn [C06] a-cached-program-that-fails-on-this-row-is-not-the-answer-the-row-environment-is-tried: $runErr != nil ==> $evals >= 1
 
 // ---- accumulators reached through the aggregator interface (frame-only assumed contracts)
 extern iface.LegacyAggregatorFunction.Add
